@@ -49,6 +49,68 @@ pub fn gen(class: &str, len: usize, seed: u64) -> Vec<u8> {
     }
 }
 
+/// Payloads that look like an encoding somebody might sniff for: complete compressed streams,
+/// streams followed by other bytes, truncated streams, bare magic numbers, armoured text.
+pub const CODED: &[&str] = &[
+    "zlib", "zlib-best", "zlib-of-nothing", "zlib+tail", "zlib-truncated", "two-zlib-streams", "gzip", "gzip+tail", "deflate-raw",
+    "zstd-magic", "bz2-magic", "xz-magic", "lz4-magic", "sqlite-header", "base64", "hex", "json", "pem",
+];
+
+pub fn gen_coded(name: &str, seed: u64) -> Vec<u8> {
+    use flate2::write::{DeflateEncoder, GzEncoder, ZlibEncoder};
+    use flate2::Compression;
+    use std::io::Write;
+    let plain: Vec<u8> = format!("history segment {seed}: ").into_bytes().into_iter().chain(gen("digits", 400, seed)).chain(gen("random", 60, seed)).collect();
+    let zlib = |level: Compression, data: &[u8]| -> Vec<u8> {
+        let mut e = ZlibEncoder::new(Vec::new(), level);
+        e.write_all(data).unwrap();
+        e.finish().unwrap()
+    };
+    match name {
+        "zlib" => zlib(Compression::default(), &plain),
+        "zlib-best" => zlib(Compression::best(), &plain),
+        "zlib-of-nothing" => zlib(Compression::default(), b""),
+        "zlib+tail" => {
+            let mut v = zlib(Compression::default(), &plain);
+            v.extend_from_slice(b"...and more bytes after the stream");
+            v
+        }
+        "zlib-truncated" => {
+            let v = zlib(Compression::default(), &plain);
+            v[..v.len() - 5].to_vec()
+        }
+        "two-zlib-streams" => {
+            let mut v = zlib(Compression::default(), &plain);
+            v.extend(zlib(Compression::fast(), b"second stream"));
+            v
+        }
+        "gzip" | "gzip+tail" => {
+            let mut e = GzEncoder::new(Vec::new(), Compression::default());
+            e.write_all(&plain).unwrap();
+            let mut v = e.finish().unwrap();
+            if name == "gzip+tail" {
+                v.extend_from_slice(b"tail");
+            }
+            v
+        }
+        "deflate-raw" => {
+            let mut e = DeflateEncoder::new(Vec::new(), Compression::default());
+            e.write_all(&plain).unwrap();
+            e.finish().unwrap()
+        }
+        "zstd-magic" => [&[0x28u8, 0xb5, 0x2f, 0xfd][..], &plain[..40]].concat(),
+        "bz2-magic" => [&b"BZh91AY&SY"[..], &plain[..40]].concat(),
+        "xz-magic" => [&[0xfdu8, b'7', b'z', b'X', b'Z', 0x00][..], &plain[..40]].concat(),
+        "lz4-magic" => [&[0x04u8, 0x22, 0x4d, 0x18][..], &plain[..40]].concat(),
+        "sqlite-header" => [&b"SQLite format 3\0"[..], &plain[..84]].concat(),
+        "base64" => b"aGlzdG9yeSBzZWdtZW50IGluIGJhc2U2NA==".to_vec(),
+        "hex" => b"68697374 6f727920 7365676d 656e74".to_vec(),
+        "json" => br#"{"version":"00000000-0000-0000-0000-000000000000","payload":null}"#.to_vec(),
+        "pem" => b"-----BEGIN AGE ENCRYPTED FILE-----\nYWdlLWVuY3J5cHRpb24=\n-----END AGE ENCRYPTED FILE-----\n".to_vec(),
+        _ => vec![b'?'; 8],
+    }
+}
+
 /// The lengths of the alphabet.
 pub fn lengths(quick: bool) -> Vec<usize> {
     let mut v: Vec<usize> = (1..=300).collect();
@@ -533,6 +595,8 @@ pub fn worker_main() {
                         (gen(c, len, seed), format!("{c}:{len}"))
                     } else if let Some(tx) = it["text"].as_str() {
                         (tx.as_bytes().to_vec(), format!("text:{tx:?}"))
+                    } else if let Some(cn) = it["coded"].as_str() {
+                        (gen_coded(cn, seed), format!("coded:{cn}"))
                     } else if let Some(b) = it["byte"].as_u64() {
                         (vec![b as u8], format!("byte:{b:#04x}"))
                     } else {
